@@ -35,6 +35,7 @@ type Obl struct {
 func (o *Obl) Key() string { return o.Rule + " | " + o.Func + " | " + o.Desc }
 
 type Report struct {
+	Sub     bool // a sub-report whose obligations are copied into another property's report
 	Prop    string
 	Tier    string
 	Obls    []*Obl
